@@ -94,6 +94,14 @@ class Ctx:
         if len(self.samples) < limit:
             self.samples.append(s)
 
+    def artefact(self, msg):
+        """a trace whose only mismatch is the float -> fraction conversion (the raw float equals the spec's exact value): it is neither
+        a violation nor validated; a few are tolerated and listed in the evidence, many mean the trace format needs larger denominators"""
+        lst = self.extra.setdefault("rationalisation_artefacts_not_counted_as_validated", [])
+        lst.append(msg[:200])
+        if len(lst) > 25:
+            raise Machinery(f"{len(lst)} rationalisation artefacts: enlarge the denominators of the trace format ({msg})")
+
     # ------------------------------------------------------------ violations
     def violation(self, rec):
         """rec: dict with api, clause, features(dict), case(anything re-runnable), observed, expected."""
